@@ -1,5 +1,5 @@
 CONSTANTS
-  MaxC = 5
+  MaxC = 4
   Faults = {"serFail", "deFail", "deCorrupt", "deDropsHidden", "jsonSloppy", "jsonDiscrete", "eqSubset", "eqNotReflexive", "eqPanics", "nondetFit"}
 SPECIFICATION Spec
 INVARIANT InvSound
